@@ -132,6 +132,19 @@ def nicira_actions(tier, seed):
             learn.spec.append(spec_makers[i]())
           return _action_rt(learn)
         yield ("learn(%s; specs=%s)" % (sorted(kw), idxs), t)
+  # immediate sources of every width: the immediate is padded to whole 16-bit words on the wire, whatever n_bits is
+  for nb in range(1, 65):
+    dst = (nx.NXM_OF_ETH_TYPE if nb <= 16 else nx.NXM_OF_IP_SRC if nb <= 32 else nx.NXM_OF_ETH_DST if nb <= 48
+           else nx.NXM_NX_TUN_ID)
+    imm = bytes([(0x11 * (i + 1)) & 0xff for i in range(((nb + 15) // 16) * 2)])
+    for tail in (0, 1):
+      def t(nb=nb, dst=dst, imm=imm, tail=tail):
+        learn = nx.nx_action_learn(table_id=1)
+        learn.spec.append(fms(immediate=imm, match=dst, n_bits=nb))
+        if tail:
+          learn.spec.append(fms(field=nx.NXM_OF_IN_PORT, output=True))
+        return _action_rt(learn)
+      yield ("learn(immediate of %d bits%s)" % (nb, " + a further spec" if tail else ""), t)
 
 
 def _entry_values(cls, rng):
